@@ -420,6 +420,19 @@ _BIND_PATS = [
 ]
 
 
+def call_names(body):
+    """Names of the functions / methods / macros called in a body (identifier directly followed by `(` or `!(`)."""
+    kind = rs.code_mask(body)
+    out = []
+    for s_, e_, m in rs.find_code(body, kind, r'\b([A-Za-z_]\w*)\s*!?\s*\(', 0, len(body)):
+        nm = m.group(1)
+        if nm in ('if', 'while', 'match', 'for', 'return', 'loop', 'let', 'in', 'as', 'mut', 'ref') or nm[0].isupper():
+            continue      # keywords; constructors / enum variants / tuple structs are not library calls
+        if nm not in out:
+            out.append(nm)
+    return sorted(out)
+
+
 def local_names(body):
     """Distinct names bound by simple let / for / if-let patterns, in order of first binding."""
     kind = rs.code_mask(body)
@@ -609,6 +622,7 @@ class FnDirective:
         self.norules = set()
         self.params = None    # positional names for the parameters (alpha-renaming, rule R7)
         self.locals = None    # pinned names of the simple local bindings, in order of first binding (rule R7b)
+        self.calls = None     # pinned set of function / method names called in the body (new names = unvalidated dependency specs)
         self.loop_end = {}    # n -> lines inserted before the closing brace of the n-th loop body
         self.loop_begin = {}  # n -> lines inserted after the opening brace of the n-th loop body
         self.before_loop = {} # n -> lines inserted before the n-th loop statement
@@ -670,6 +684,9 @@ def apply_fn(d, log, fnmap, out_lineno):
         header = header[:pc + 1] + m.group(1) + '(' + d.ret + ': ' + m.group(2).strip() + ')' + m.group(3)
     if d.params is not None:
         header, body = rule_r7_rename_params(header, body, d.params, log, where, d.spec)
+    new_calls = []
+    if d.calls is not None:
+        new_calls = [c for c in call_names(body) if c not in d.calls]
     if d.locals is not None:
         body = rule_r7b_rename_locals(body, d.locals, log, where)
     # body rewrites (closed list)
@@ -753,7 +770,7 @@ def apply_fn(d, log, fnmap, out_lineno):
     first_line = src.count('\n', 0, it.sig_start) + 1
     fnmap.append({'label': label, 'fn': name, 'source': file, 'source_line': first_line,
                   'gen_first': out_lineno, 'gen_last': out_lineno + nlines - 1,
-                  'spec': d.spec})
+                  'spec': d.spec, 'new_calls': new_calls})
     log.taken.append({'item': d.spec, 'kind': 'fn', 'source_line': first_line, 'bytes': it.end - it.sig_start})
     return text
 
@@ -999,6 +1016,9 @@ def expand(template_path, out_path, extra_tail=''):
                         m = re.match(r'loop\s+(\d+)(\s+iter\s+(\w+))?', c2)
                         cur = []
                         d.loops[int(m.group(1))] = (m.group(3), cur)
+                    elif c2.startswith('calls'):
+                        d.calls = c2[5:].split()
+                        cur = None
                     elif c2.startswith('locals'):
                         d.locals = c2[6:].split()
                         cur = None
